@@ -1,6 +1,55 @@
+# id -> technique, level text, level note, design ref  (exec'd by mkmanifest.py)
+add("C01", "runtime panic / allocation / CPU-time monitors on every decode entry point over systematic, mutated and hostile byte strings; worker-process isolation; checkptr through the -race build",
+    "Exploration: 24 decode entry points are driven with a systematic grid (every input length 0..64 x count x length-field boundary set x body pattern), mutants of reference encodings of every type fed to every decoder, and hostile shapes (count-driven allocation, 64 KiB many-frame datagrams, 256 KiB inputs); a guard observes panics, a meter the bytes allocated per call, a watchdog the CPU time of the case in flight. The quantifier is all byte strings, which only sampling can approach.",
+    "Allocation bound 8 MiB + 128 x len(input) and the 20 CPU-second hang threshold are calibrated constants.", "5/C01")
 add("C02", "runtime round-trip monitor (Marshal -> own/datagram/list decoders -> structural comparison modulo reference-computed quantisations) over seeded boundary-biased values",
-    "Exploration: every generated well-formed value of all 16 packet types and every generated list is marshalled, decoded through the type's own decoder, rtcp.Unmarshal and the list path, compared structurally and re-marshalled; millions of distinct values per run. Right level because the property quantifies over an unbounded value domain: monitoring samples it densely at boundaries but cannot enumerate it.",
+    "Exploration: every generated well-formed value of all 16 packet types and every generated list is marshalled, decoded through the type's own decoder, rtcp.Unmarshal and the list path, compared structurally and re-marshalled; about a million distinct values per quick run. Unbounded value domain: sampled densely at boundaries, never enumerated.",
     "Misses values outside the generator's size caps; D is part of the trusted base.", "5/C02")
+add("C03", "runtime comparison of Marshal output with an independent RFC reference encoder under a don't-care mask, judged per field",
+    "Exploration: the octets the real Marshal emits are compared with an encoder written independently from the RFC texts, for the C02 value stream plus per-field walking values; the reference is cross-checked at start-up against byte vectors from Chrome/libwebrtc.",
+    "A misreading of an RFC shared by the library and the reference is invisible.", "5/C03")
+add("C04", "runtime comparison of decoded fields with the model value for reference-made variant encodings; rejection monitor for count-inflated SR/RR/SDES/BYE",
+    "Exploration: RFC-permitted encodings the library never emits (alternative TWCC chunkings, unnormalised REMB pairs, padded APP, reserved bits, unknown XR blocks, stray CCFB bits, BYE forms) are produced by the reference encoder and decoded by the real decoders; every (count, inflated count) pair of SR/RR/SDES/BYE must be rejected.",
+    "Variants are exactly those the statement lists.", "5/C04")
 add("C05", "runtime framing-invariant monitor on Marshal output (size vs MarshalSize, alignment, header word, Header()/Len() accessors, compound sum)",
-    "Exploration: framing invariants are asserted on the octets the real Marshal produces for millions of generated values including every residue mod 4 of every variable-length part.",
+    "Exploration: framing invariants are asserted on the octets the real Marshal produces for generated values including every residue mod 4 of every variable-length part.",
     "Judged only when Marshal returns nil and the encoding fits 262144 octets.", "5/C05")
+add("C06", "runtime conservation / locality checker over generated frame traces (exactly-once, concatenation, context-freedom, all-or-nothing) of rtcp.Unmarshal",
+    "Exploration: the generator logs the frame sequence it emits; the checker compares what rtcp.Unmarshal returns with per-frame decodes, at every split point, with malformed frames inserted at every position, tails cut inside frames, surplus octets, maximum-length frames and the empty datagram.",
+    "A malformed frame is self-delimiting and rejected alone; boundary cuts are concatenation cases.", "5/C06")
+add("C07", "runtime dispatch-table oracle over all 256x32x2 header combinations, foreign-type rejection matrix over all ordered type pairs, self-dispatch of Marshal output",
+    "Exploration with an exhaustive header space: every (PT, count/FMT, P) combination is dispatched with several bodies; every ordered (decoder, foreign class) pair is exercised with generated well-formed foreign packets.",
+    "Bodies are sampled; for registered combinations with the padding bit only the type of an accepted result is judged.", "5/C07")
+add("C08", "runtime limit-table monitor: every wire limit probed at limit-1, limit, limit+1 and far beyond in random surroundings; accepted output compared with the reference encoding",
+    "Exploration over a complete table of the limits the statement names: over-limit values must yield an error and no octets, at/under-limit values must be accepted and their octets must equal the independent reference encoding (which is what exposes wrap-arounds that keep err == nil).",
+    "Limits the statement does not name are not claimed.", "5/C08")
+add("C09", "runtime decode -> encode -> decode -> encode fixpoint monitor on manufactured accepted datagrams",
+    "Exploration: accepted inputs are manufactured (reference encodings of both dialects, own output, all REMB wire values, TWCC mutants, acceptance-preserving mutations, size-limit shapes) and each is taken through decode, Marshal, decode, Marshal; no panic, re-acceptance, structural equality and byte fixpoint are judged.",
+    "TWCC frames are judged only under the statement's header-consistency precondition.", "5/C09")
+add("C10", "runtime comparison of DestinationSSRC() with a reference list derived from the model value, in memory and after a round trip",
+    "Exploration: every SSRC slot of generated values carries a distinct tagged value, so dropped, duplicated or reordered elements are identifiable; judged on the constructed value, the own decoder's result and the datagram decoder's result.",
+    "Expected lists follow the statement's wording.", "5/C10")
+add("C11", "runtime comparison of Validate/Marshal/Unmarshal/CNAME/DestinationSSRC/MarshalSize with an independent acceptor of the RFC 3550 compound grammar, exhaustive over member-kind sequences",
+    "Exploration with exhaustive structure: all sequences over 12 member kinds up to length 4 (quick) / 6 (thorough) with freshly generated member contents, plus random sequences up to length 40.",
+    "Member contents are sampled; the kind alphabet is my partition of the packet space.", "5/C11")
+add("C12", "runtime set-cover / order / early-stop oracles on the NACK pair helpers with exhaustive enumeration of (PacketID, bitmap) pairs",
+    "Exploration with exhaustive sub-domains: all 2^16 bitmaps x 40 ids (quick) / all 2^32 pairs (thorough), all 18 early-stop positions x all bitmaps, all short lists over a wrap-straddling window, random long lists.",
+    "Arbitrary-length input lists are sampled.", "5/C12")
+add("C13", "runtime comparison of every accepted TWCC decode with an independent expansion of the raw octets; chunking invariance over reference encodings of random valid chunkings",
+    "Exploration: an independent walker expands chunk words and delta octets from the raw bytes; chunk list, delta count/size class/value and bounds of every accepted decode must agree; K chunkings of the same status sequence must decode to the same statuses and deltas.",
+    "Reading of the statement for vector chunks that overshoot the count is stated in DESIGN.md.", "5/C13")
+add("C14", "runtime comparison of REMB decode/encode with an exact integer reference; exhaustive enumeration of the 2^24 wire pairs (thorough: all 2^31 non-negative float32) with a monotonicity monitor",
+    "Exploration with exhaustive sub-domains: all 64 x 2^18 wire pairs are decoded (both tiers); encodings are compared with the integer reference on dense neighbourhoods of every boundary (quick) / on every non-negative finite float32 (thorough), with floor, shortfall, saturation and monotonicity judged from the library's own octets.",
+    "The fast integer reference is cross-checked against a math/big reference at start-up.", "5/C14")
+add("C15", "runtime check of ExtendedReport.Marshal output with an independent block walker; decode order/type/value, neighbour independence, verbatim survival of unknown blocks",
+    "Exploration: every order of the 8 block kinds for k <= 3 with fresh field values, random sequences to k = 8, all T values and flag combinations, every unknown block type arriving from the wire.",
+    "Field values and list lengths are sampled.", "5/C15")
+add("C16", "exhaustive run-time enumeration of each fixed-width wire unit through the public API in both directions",
+    "Exploration with exhaustive domains: chunk words, deltas, 24-bit loss counts, CCFB metric blocks, XR chunk accessors completely in both tiers; header words, NACK pairs and SLI words completely in the thorough tier (sampled in quick); FIR's 2^40 domain stratified.",
+    "FIR entries and (in quick) 32-bit units are sampled.", "5/C16")
+add("C17", "runtime panic monitor on String()/fmt formatting, including a scan of fmt output for recovered String panics",
+    "Exploration: every packet decoded from the manufactured accepted corpus, generated values of all types, compound packets mixing all types, all 2^24 REMB wire pairs, all values of the enum-like types and all 2^16 XR chunks are formatted by String() and by fmt with %v/%+v/%s on pointer and value forms.",
+    "Datagram sizes are capped because several String methods are quadratic.", "5/C17")
+add("C18", "purity snapshots and random call histories against per-(packet, operation) baselines; Go race detector over shared-object workloads with an unsynchronised monitor",
+    "Exploration of schedules and histories: sequential purity and history monitors, then 16 (goroutines, GOMAXPROCS) configurations of mixed read-only operations on shared packets, decodes of shared buffers and arbitrary operations on private clones under the race detector; the evidence states how many operation pairs on the same shared object actually overlapped in time.",
+    "Interleavings are sampled; the race detector sees only executed accesses.", "5/C18")
